@@ -27,17 +27,17 @@ Theorem C09_sections : forall body (files : list (bytes * bytes)),
               ++ flat_map (fun nd => snd nd ++ CRLF) files in
   let '(b, se, rest) := read_section tail (Z.of_nat (length body)) in
   b = body /\ se = SOk /\
-  read_files (map (fun nd => file_value (fst nd) (snd nd)) files) rest false
-  = (map (fun nd => {| pf_data := snd nd; pf_name := fst nd; pf_err := false |}) files, false, []).
+  read_files (map (fun nd => file_value (fst nd) (snd nd)) files) rest SOk
+  = (map (fun nd => {| pf_data := snd nd; pf_name := fst nd; pf_err := false |}) files, SOk, []).
 Proof. exact sections_roundtrip. Qed.
 Print Assumptions C09_sections.
 
-Theorem C09_files : forall (files : list (bytes * bytes)) (e : bool),
+Theorem C09_files : forall (files : list (bytes * bytes)) (e : serr),
   sizes_ok (map snd files) ->
   read_files (map (fun nd => file_value (fst nd) (snd nd)) files)
              (flat_map (fun nd => snd nd ++ CRLF) files) e
   = (map (fun nd => {| pf_data := snd nd; pf_name := fst nd; pf_err := false |}) files,
-     match files with [] => e | _ => false end, []).
+     match files with [] => e | _ => SOk end, []).
 Proof. exact read_files_roundtrip. Qed.
 Print Assumptions C09_files.
 
